@@ -256,6 +256,10 @@ func (p *Proxy) handleRawMessage(rawMessage *RawMessage) (*Message, error) {
 		}
 		zap.L().Info("receive a message from tcp", zap.String("host", host), zap.Int("port", port))
 		if err == nil {
+			// register the connection under the address sendMessage will look it up with
+			if ip, err := p.resolver.GetIp(host); err == nil {
+				host = ip
+			}
 			transId, err := msg.GetClientTransaction()
 			if err == nil {
 				trans, err := p.clientTransMgr.GetTransport("tcp", host, port, p.localAddress, transId)
@@ -649,7 +653,7 @@ func (p *Proxy) sendMessage(host string, port int, transport string, msg *Messag
 	t, err := p.findClientTransport(ip, port, transport, transId)
 	if err == nil {
 		if msg.IsFinalResponse() {
-			p.clientTransMgr.RemoveTransport(transport, host, port, transId)
+			p.clientTransMgr.RemoveTransport(transport, ip, port, transId)
 		}
 		t.Send(msg)
 	} else {
